@@ -523,3 +523,174 @@ mod tests {
         assert!(k.get("only_pull_left").copied().unwrap_or(0) > 20 && k.get("dead_end").copied().unwrap_or(0) > 20);
     }
 }
+
+/// One random capture-free turn of `gold` built with the model: 1..=3 steps of own non-rabbit
+/// pieces inside the side's own zone (gold ranks 1-3, silver ranks 6-8, so the armies never touch
+/// and every turn can be undone later) followed by a pass. Returns the steps.
+fn model_turn(b: &mut MBoard, gold: bool, rng: &mut Rng) -> Option<Vec<(usize, u8)>> {
+    let start = *b;
+    let in_zone = |i: usize| if gold { i / 8 >= 5 } else { i / 8 <= 2 };
+    for _ in 0..8 {
+        let mut cur = start;
+        let k = 1 + rng.below(3);
+        let mut steps = vec![];
+        let mut pend = Pend::None;
+        for st in 0..k {
+            let legal = cur.legal(gold, st as u8, pend);
+            let cands: Vec<Code> = legal
+                .iter()
+                .filter(|c| is_step(*c))
+                .filter(|c| {
+                    let cl = cur.0[code_sq(*c)];
+                    cl != 0 && is_gold(cl) == gold && strength(cl) != 0 && cur.apply(gold, pend, code_sq(*c), code_dir(*c)).map_or(false, |a| a.captured.is_empty() && !TRAPS.contains(&a.to) && in_zone(a.to))
+                })
+                .collect();
+            if cands.is_empty() {
+                break;
+            }
+            let c = cands[rng.below(cands.len())];
+            let a = cur.apply(gold, pend, code_sq(c), code_dir(c)).unwrap();
+            cur = a.board;
+            pend = a.pend;
+            steps.push((code_sq(c), code_dir(c)));
+        }
+        if !steps.is_empty() && cur != start {
+            *b = cur;
+            return Some(steps);
+        }
+    }
+    None
+}
+
+fn undo_turn(b: &mut MBoard, gold: bool, steps: &[(usize, u8)], script: &mut Vec<Code>) -> Option<()> {
+    let mut pend = Pend::None;
+    for (n, (sq, d)) in steps.iter().rev().enumerate() {
+        let from = nb(*sq, *d)?;
+        let c = step_code(from, opp(*d));
+        if !b.legal(gold, n as u8, pend).contains(c) {
+            return None;
+        }
+        let a = b.apply(gold, pend, from, opp(*d))?;
+        if !a.captured.is_empty() {
+            return None;
+        }
+        *b = a.board;
+        pend = a.pend;
+        script.push(c);
+    }
+    script.push(PASS);
+    Some(())
+}
+
+/// Start position for W5c: per side one rabbit at home and 2-3 other pieces inside its own zone.
+pub fn long_cycler_position(rng: &mut Rng) -> (MBoard, bool, u64) {
+    let mut b = MBoard::empty();
+    for gold in [true, false] {
+        let home = if gold { 56 } else { 0 };
+        b.0[home + rng.below(8)] = cell(0, gold);
+        let n = 2 + rng.below(2);
+        let mut left = COMPLEMENT;
+        let mut placed = 0;
+        while placed < n {
+            let s = 1 + rng.below(5) as u8;
+            if left[s as usize] == 0 {
+                continue;
+            }
+            let i = if gold { 40 + rng.below(16) } else { 8 + rng.below(16) };
+            if b.0[i] == 0 && !TRAPS.contains(&i) {
+                b.0[i] = cell(s, gold);
+                left[s as usize] -= 1;
+                placed += 1;
+            }
+        }
+    }
+    (b, rng.chance(1, 2), 2 + rng.below(60) as u64)
+}
+
+/// W5c "long cyclers": a short 4-turn cycle (second occurrence of the start position), then an
+/// out-walk of `k` rounds and the exact walk back, so that the start position is approached for
+/// the third time 4k+4 turns after its first occurrence: the repetition scan has to reach that far
+/// back, and every position of the out-walk recurs once, many turns apart.
+pub fn long_cycler_script(b0: &MBoard, gold0: bool, k: usize, rng: &mut Rng) -> Option<Vec<Code>> {
+    let mut script: Vec<Code> = vec![];
+    let mut hist: std::collections::HashMap<(MBoard, bool), u32> = std::collections::HashMap::new();
+    hist.insert((*b0, gold0), 1);
+    let mut b = *b0;
+    let push_turn = |steps: &[(usize, u8)], script: &mut Vec<Code>| {
+        for (sq, d) in steps {
+            script.push(step_code(*sq, *d));
+        }
+        script.push(PASS);
+    };
+    // the short cycle: T1, T2, undo T1, undo T2
+    let t1 = model_turn(&mut b, gold0, rng)?;
+    push_turn(&t1, &mut script);
+    hist.insert((b, !gold0), 1);
+    let t2 = model_turn(&mut b, !gold0, rng)?;
+    push_turn(&t2, &mut script);
+    hist.insert((b, gold0), 1);
+    undo_turn(&mut b, gold0, &t1, &mut script)?;
+    hist.insert((b, !gold0), 1);
+    undo_turn(&mut b, !gold0, &t2, &mut script)?;
+    if b != *b0 {
+        return None;
+    }
+    *hist.entry((b, gold0)).or_insert(0) += 1; // second occurrence of the start position
+    // the out-walk
+    let mut turns: Vec<Vec<(usize, u8)>> = vec![];
+    let mut gold = gold0;
+    for _ in 0..2 * k {
+        let mut tries = 0;
+        loop {
+            tries += 1;
+            if tries > 12 {
+                return None;
+            }
+            let mut nb_ = b;
+            let steps = model_turn(&mut nb_, gold, rng)?;
+            if hist.contains_key(&(nb_, !gold)) {
+                continue; // keep the out-walk free of repetitions
+            }
+            hist.insert((nb_, !gold), 1);
+            push_turn(&steps, &mut script);
+            b = nb_;
+            turns.push(steps);
+            gold = !gold;
+            break;
+        }
+    }
+    // the walk back: each side undoes its own most recent turn (turns alternate gold0, !gold0, ...)
+    let mut j = 2 * k;
+    while j >= 2 {
+        undo_turn(&mut b, gold0, &turns[j - 2], &mut script)?;
+        undo_turn(&mut b, !gold0, &turns[j - 1], &mut script)?;
+        j -= 2;
+    }
+    if b != *b0 {
+        return None;
+    }
+    Some(script)
+}
+
+pub fn play_long_cyclers(games: u64, kmin: usize, kmax: usize, seed: u64, worker: usize, mon: &mut dyn Monitor, sink: &mut Sink) {
+    let mut rng = Rng::new(seed, (worker as u64) << 8 | 0x5C);
+    let opts = PlayOpts { max_turns: (4 * kmax + 40) as u32, max_actions: (20 * kmax + 200) as u32, ..PlayOpts::default() };
+    for idx in 0..games {
+        let mut done = false;
+        for _ in 0..20 {
+            let (b, gold, mv) = long_cycler_position(&mut rng);
+            let k = kmin + rng.below(kmax - kmin + 1);
+            if let Some(script) = long_cycler_script(&b, gold, k, &mut rng) {
+                sink.count("long_cycler_scripts_built");
+                sink.max("longest_long_cycler_script_turns", (4 * k + 4) as u64);
+                let mut rec = GameRecord::new("W5c-long-cycler", seed, (worker as u64) << 32 | idx, Start::Inject { board: b, gold, moveno: mv });
+                play(&mut rec, Policy::Script(script), &opts, &mut rng, mon, sink);
+                done = true;
+                break;
+            }
+        }
+        if !done {
+            sink.count("long_cycler_script_construction_failed");
+        }
+    }
+}
